@@ -19,6 +19,9 @@ KILLS = {
     'suicide(owner)': lambda b: b.call(b.var('suicide'), [b.var('owner')]),
     'selfdestruct(payable(owner))': lambda b: b.call(b.var('selfdestruct'), [b.call(b.ty('Payable'), [b.var('owner')])]),
     'destroy(owner)': lambda b: b.call(b.var('destroy'), [b.var('owner')]),
+    # the sender as the operand of conversions that are not address types
+    'selfdestruct(payable(address(uint160(msg.sender))))': lambda b: b.call(b.var('selfdestruct'), [b.call(b.ty('Payable'), [b.call(b.ty('Address'), [b.call(b.ty('Uint', 160), [sender(b)])])])]),
+    'selfdestruct(address(bytes20(msg.sender)))': lambda b: b.call(b.var('selfdestruct'), [b.call(b.ty('Address'), [b.call(b.ty('Bytes', 20), [sender(b)])])]),
     'x.selfdestruct(owner)': lambda b: b.call(b.member(b.var('x'), 'selfdestruct'), [b.var('owner')]),
 }
 GUARDS = {
@@ -29,6 +32,8 @@ GUARDS = {
     'require(owner == msg.sender)': lambda b: b.call(b.var('require'), [b.bin('Equal', b.var('owner'), sender(b))]),
     'log(x)': lambda b: b.call(b.var('log'), [b.var('x')]),
     'address(msg.sender)': lambda b: b.call(b.ty('Address'), [sender(b)]),
+    'uint160(msg.sender)': lambda b: b.call(b.ty('Uint', 160), [sender(b)]),
+    'x = uint256(uint160(msg.sender))': lambda b: b.bin('Assign', b.var('x'), b.call(b.ty('Uint', 256), [b.call(b.ty('Uint', 160), [sender(b)])])),
     'emit-like note(payable(msg.sender))': lambda b: b.call(b.var('note'), [b.call(b.ty('Payable'), [sender(b)])]),
     'last = msg.sender': lambda b: b.bin('Assign', b.var('last'), sender(b)),
 }
